@@ -1031,7 +1031,7 @@ func runHeaders(w *bufio.Writer, seed uint64, n int, _ []string) {
 	}
 
 	// (ii) byte strings
-	nb := 2
+	nb := 1
 	if g.thorough {
 		nb = 5
 	}
